@@ -62,18 +62,18 @@ def bflags (i : VInstr) (pc pc' : Nat) (f : Flags) : Flags :=
   | .endCapture => true :: f
   | .appendToList => true :: f.drop 2
 
-/-- the `end_ip`s of the loops the chunk pushed and has not popped, innermost first (below them:
-the caller's loops, unknown); `none` = nothing known -/
-abbrev ALoops := Option (List Nat)
+/-- the `end_ip`s of the loops the chunk pushed and has not popped, innermost first, each known
+or not (below them: the caller's loops, unknown); `none` = nothing known, not even how many -/
+abbrev ALoops := Option (List (Option Nat))
 
 /-- own loops after the turn of instruction `i` at `pc` that continues at `pc'` -/
 def bloops (i : VInstr) (pc pc' : Nat) (l : ALoops) : ALoops :=
   match i with
-  | .startIterate .. => l.map (0 :: ·)
+  | .startIterate .. => l.map (some 0 :: ·)
   | .iterate t =>
     match l with
     | some (x :: xs) =>
-      if t = pc + 1 then none else if pc' = t then some (x :: xs) else some (t :: xs)
+      if t = pc + 1 then some (none :: xs) else if pc' = t then some (x :: xs) else some (some t :: xs)
     | other => other
   | .popLoop => l.map List.tail
   | .renderBlock _ => none
@@ -87,7 +87,7 @@ def bsuccs (i : VInstr) (pc len : Nat) (l : ALoops) : List Nat :=
   | .popJumpIfFalse t | .jumpIfFalseOrPop t | .jumpIfTrueOrPop t | .iterate t => [t, pc + 1]
   | .break_ =>
     match l with
-    | some (x :: _) => [x]
+    | some (some x :: _) => [x]
     | _ => List.range len ++ [pc + 1]
   | _ => [pc + 1]
 
@@ -106,8 +106,19 @@ structure AState where
 
 abbrev FTable := List (Option AState)
 
+/-- loop knowledge `t` claims no more than `a`: as many own loops, each unknown or the same -/
+def lle : List (Option Nat) → List (Option Nat) → Bool
+  | [], [] => true
+  | x :: xs, y :: ys => (x.isNone || x == y) && lle xs ys
+  | _, _ => false
+
 /-- `t` claims no more than `a` -/
-def AState.le (t a : AState) : Bool := fle t.flags a.flags && (t.loops.isNone || t.loops == a.loops)
+def AState.le (t a : AState) : Bool :=
+  fle t.flags a.flags &&
+    match t.loops, a.loops with
+    | none, _ => true
+    | some tl, some al => lle tl al
+    | some _, none => false
 
 def coveredF (table : FTable) (len : Nat) (p : Nat) (g : AState) : Bool :=
   decide (len ≤ p) ||
@@ -134,8 +145,16 @@ def meetF : Flags → Flags → Flags
   | x :: xs, y :: ys => (x && y) :: meetF xs ys
   | _, _ => []
 
+def meetL : List (Option Nat) → List (Option Nat) → Option (List (Option Nat))
+  | [], [] => some []
+  | x :: xs, y :: ys => (meetL xs ys).map ((if x == y then x else none) :: ·)
+  | _, _ => none
+
 def AState.meet (a b : AState) : AState :=
-  ⟨meetF a.flags b.flags, if a.loops == b.loops then a.loops else none⟩
+  ⟨meetF a.flags b.flags,
+   match a.loops, b.loops with
+   | some x, some y => meetL x y
+   | _, _ => none⟩
 
 def mergeF (len : Nat) (table : FTable) (p : Nat) (g : AState) : FTable :=
   if p < len then
